@@ -406,3 +406,134 @@ def ws_handshake_odd_values(hi: int, vi: int, carrier: int, extra: bool) -> bool
     if conn.sched.errors:
         why = "unhandled exception in the connection: %s %r" % (conn.sched.errors[0][0], conn.sched.errors[0][1])
     return done(why == "", header=name, value=value, carrier=["h1", "h2"][carrier], extra=extra, why=why)
+
+
+# ------------------------------------------------------------------ HTTP/1 request header values
+
+H1N = [b"Host", b"Upgrade", b"Connection", b"HTTP2-Settings", b"Content-Length", b"Transfer-Encoding", b"Expect", b"TE"]
+H1V = HV + [b"h2c", b"a", b"AAAAAAAAAA", b"AAIAAAAC", b"abcd", b"100-continue", b"-1", b"chunked, gzip", b"example.com:80"]
+
+
+@harness(
+    "C04",
+    dom={"hi": (0, len(H1N) - 1), "vi": (0, len(H1V) - 1), "base": (0, 1), "names": "bool", "extra": "bool"},
+    split={"hi": "each"},
+    witnesses=[{"hi": 0, "vi": 2, "base": 0, "names": True, "extra": False}, {"hi": 3, "vi": 9, "base": 1, "names": False, "extra": False}, {"hi": 3, "vi": 11, "base": 1, "names": False, "extra": True}],
+    budget=100,
+    per_path=60,
+    bounds="HTTP/1.1 requests (plain GET, or an h2c upgrade request with valid HTTP2-Settings) in which one of 8 headers carries one of 17 odd values (non-ASCII, invalid UTF-8, empty, commas, very long, not base64, base64 of a truncated / invalid SETTINGS payload, negative length, ...), replacing the header or as an additional line; with and without config.server_names",
+    encodes=["hypercorn/protocol/h11.py::H11Protocol._check_protocol", "hypercorn/protocol/h11.py::H2CProtocolRequiredError.__init__", "hypercorn/protocol/__init__.py::ProtocolWrapper.handle",
+             "hypercorn/utils.py::valid_server_name", "hypercorn/protocol/h2.py::H2Protocol.initiate"],
+    stubs=["tier B runtime"],
+)
+def h1_odd_header_values(hi: int, vi: int, base: int, names: bool, extra: bool) -> bool:
+    """
+    pre: DOM(h1_odd_header_values, hi=hi, vi=vi, base=base, names=names, extra=extra)
+    post: _
+    """
+    enter()
+    name = H1N[conc(hi, 0, len(H1N) - 1)]
+    value = H1V[conc(vi, 0, len(H1V) - 1)]
+    base = conc(base, 0, 1)
+    names = True if names else False
+    extra = True if extra else False
+    hs = [(b"Host", b"example.com")]
+    if base == 1:
+        c = H2Client(upgrade=True)
+        hs += [(b"Connection", b"Upgrade, HTTP2-Settings"), (b"Upgrade", b"h2c"), (b"HTTP2-Settings", c.upgrade_settings)]
+    if not extra:
+        hs = [(n, v) for n, v in hs if n != name]
+    hs.append((name, value))
+    app = _App()
+    conn = Conn(app, make_config(server_names=["example.com"]) if names else make_config())
+    conn.feed(h1_request("GET", b"/odd", hs))
+    conn.eof()
+    out = conn.out.peek()
+    why = ""
+    if conn.sched.errors:
+        why = "unhandled exception in the connection: %s %r" % (conn.sched.errors[0][0], conn.sched.errors[0][1])
+    elif out and split_h1_head(out) is None:
+        why = f"server wrote something that is not an HTTP/1 response head: {out[:60]!r}"
+    elif not out and not conn.server_closed:
+        why = "no response and the connection is still open after the client's EOF"
+    return done(why == "", header=name, value=value, request=["plain GET", "h2c upgrade"][base], server_names=names, extra=extra, why=why)
+
+
+# ------------------------------------------------------------------ HTTP/1 body framing errors after a valid head
+
+_BODY_ERRORS = [
+    ("chunk size that is not hexadecimal", b"Transfer-Encoding: chunked", [b"zz\r\nabc\r\n"]),
+    ("negative chunk size after a good chunk", b"Transfer-Encoding: chunked", [b"3\r\nabc\r\n", b"-1\r\n"]),
+    ("Content-Length body cut short by the client's EOF", b"Content-Length: 10", [b"abc", None]),
+    ("chunk longer than announced", b"Transfer-Encoding: chunked", [b"3\r\nabcdef\r\n"]),
+    ("EOF in the middle of a chunk", b"Transfer-Encoding: chunked", [b"5\r\nab", None]),
+    ("bare LF chunk terminator garbage", b"Transfer-Encoding: chunked", [b"3\r\nabcXX0\r\n\r\n"]),
+]
+
+
+@harness(
+    "C04",
+    dom={"ei": (0, len(_BODY_ERRORS) - 1), "seg": (0, 2), "flavour": (0, 1), "ai": (0, 1)},
+    split={"ei": "each"},
+    witnesses=[{"ei": 0, "seg": 0, "flavour": 0, "ai": 0}, {"ei": 2, "seg": 1, "flavour": 1, "ai": 1}],
+    budget=100,
+    per_path=60,
+    bounds="a well-formed HTTP/1.1 POST head followed by one of 6 body framing errors (bad chunk size, negative size, short Content-Length body + EOF, over-long chunk, EOF inside a chunk, garbage terminator) x segmentation {head and body in one read, separate reads, byte-wise body} x application {reads the body before answering, waits for the disconnect}; both worker flavours",
+    encodes=["hypercorn/protocol/h11.py::H11Protocol._handle_events", "hypercorn/protocol/h11.py::H11Protocol._send_error_response", "hypercorn/protocol/http_stream.py::HTTPStream.handle"],
+    stubs=["tier B runtime", "independent h11 client parses the answer"],
+)
+def h1_malformed_body(ei: int, seg: int, flavour: int, ai: int) -> bool:
+    """
+    pre: DOM(h1_malformed_body, ei=ei, seg=seg, flavour=flavour, ai=ai)
+    post: _
+    """
+    enter()
+    name, framing, parts = _BODY_ERRORS[conc(ei, 0, len(_BODY_ERRORS) - 1)]
+    seg = conc(seg, 0, 2)
+    flavour = "asyncio" if conc(flavour, 0, 1) == 0 else "trio"
+    ai = conc(ai, 0, 1)
+    seen = []
+
+    async def app(scope, receive, send, sync_spawn=None, call_soon=None):
+        while True:
+            m = await receive()
+            seen.append(m["type"])
+            if m["type"] != "http.request":
+                return
+            if ai == 0 and not m.get("more_body"):
+                break
+        await send({"type": "http.response.start", "status": 200, "headers": [(b"content-length", b"2")]})
+        await send({"type": "http.response.body", "body": b"ok", "more_body": False})
+
+    head = b"POST /u HTTP/1.1\r\nHost: example.com\r\n" + framing + b"\r\n\r\n"
+    conn = Conn(app, make_config(), flavour=flavour)
+    feeds = []
+    if seg == 0:
+        first = b"".join(p for p in parts if p is not None)
+        feeds = [head + first] + [None for p in parts if p is None]
+    elif seg == 1:
+        feeds = [head] + list(parts)
+    else:
+        feeds = [head]
+        for p in parts:
+            feeds += [None] if p is None else [p[i:i + 1] for i in range(len(p))]
+    for f in feeds:
+        if f is None:
+            conn.eof()
+        else:
+            conn.feed(f)
+    out = conn.out.peek()
+    why = ""
+    if conn.sched.errors:
+        why = "unhandled exception in the connection: %s %r" % (conn.sched.errors[0][0], conn.sched.errors[0][1])
+    else:
+        resps, err, closed, trailing = h1_parse(out, [("POST", b"/u")], eof=conn.server_closed)
+        if err or len(resps) != 1 or not resps[0].complete:
+            why = f"no complete error response to a malformed body ({name}): {out[:60]!r} {err}"
+        elif not 400 <= resps[0].status < 500:
+            why = f"malformed body ({name}) answered with {resps[0].status}"
+        elif not conn.server_closed:
+            why = "connection left open after a framing error"
+        elif seen.count("http.disconnect") != 1 or seen[-1] != "http.disconnect":
+            why = f"application messages {seen!r}: expected exactly one final http.disconnect"
+    return done(why == "", error=name, seg=seg, flavour=flavour, app=["answers after the body", "waits for the disconnect"][ai], why=why)
